@@ -73,7 +73,7 @@ func multiValue(c *core.Ctx) {
 						rhs := astx.Unparen(y.Rhs[i])
 						if vals != nil && astx.ObjOf(info, rhs) == vals {
 							transfers++
-							if _, ok := allowAssign[name]; !ok {
+							if !allowedHere(p, allowAssign, name, y.Pos()) {
 								problems = append(problems, fmt.Sprintf("%s = %s overwrites whatever the destination already holds under that key", types.ExprString(l), types.ExprString(rhs)))
 							}
 							continue
@@ -927,4 +927,19 @@ func connTypesBuiltIn(p *core.Program, info *types.Info, fd *ast.FuncDecl) map[s
 		return true
 	})
 	return out
+}
+
+// allowedHere: the enclosing function is a named exception, or the statement's source position
+// lies inside the declaration of one (code of an exception that was moved into a helper and
+// inlined back keeps its original positions; a method turned into a function resolves by alias).
+func allowedHere(p *core.Program, allow map[string]string, name string, pos token.Pos) bool {
+	if _, ok := allow[name]; ok {
+		return true
+	}
+	for n := range allow {
+		if fd := p.FuncDecl(core.ConnectPath, n); fd != nil && fd.Pos() <= pos && pos <= fd.End() {
+			return true
+		}
+	}
+	return false
 }
